@@ -75,6 +75,9 @@ def StringWF (s : Bytes) : Prop := s.length ≤ MAX_FIXED_READ ∧ validUtf8 s =
 
 instance (s : Bytes) : Decidable (StringWF s) := by unfold StringWF; infer_instance
 
+/-- the empty string (an empty user agent / error message) is well-formed -/
+theorem stringWF_nil : StringWF [] := ⟨Nat.zero_le _, rfl⟩
+
 theorem decString_write (s : Bytes) (h : StringWF s) (rest : Bytes) :
     decString (writeBytes s ++ rest) = .ok (s, rest) := by
   rw [decString, readBytesLenPrefix_write s h.1, andThen_ok]
